@@ -2,7 +2,7 @@
 Model of the part of a pooled/reused coder that matters for call isolation (C18).
 
 * `Coder` = what `encoderState.reset` / `decoderState.reset` clear (`state.reset()`:
-  `Tokens`, `Names`, `Namespaces`; the buffer offsets; `Struct` = the options of the new call)
+  `Tokens` incl. `Floor`, `Names`, `Namespaces`; the buffer offsets; `Struct` = the options of the new call)
   plus the `Survivors`: fields that deliberately or incidentally outlive a reset
   (slice capacities below the drop thresholds of state.go:239/554/681, the kept buffer
   `Buf`/`availBuffer`/`bufStats` of pools.go, the decoder's `StringCache`, the encoder's
@@ -97,6 +97,7 @@ structure Coder where
   namespaces : List (List Bytes) := []  -- objectNamespaceStack: all names of every open object
   offsets : Nat × Nat := (0, 0)         -- (baseOffset, len(buf))
   flags : Flags := Flags.empty          -- jsonopts.Struct.Flags of the current call
+  floor : Nat := 0                      -- stateMachine.Floor: entries of Stack that may not be popped (state.go:237)
   surv : Survivors := {}
 
 /-- `jsonflags.AllowDuplicateNames` (= 2, tied to Gen in Props/C18). -/
@@ -112,6 +113,7 @@ def keepCap (limit cap : Nat) : Nat := if cap > limit then 0 else cap
 /-- `encoderState.reset` / `decoderState.reset` with the options `f` of the next call. -/
 def reset (c : Coder) (f : Flags) : Coder :=
   { machine := Machine.init, names := [], namespaces := [], offsets := (0, 0), flags := f,
+    floor := 0,                         -- stateMachine.reset: `m.Floor = 0`
     surv := { c.surv with
       stackCap := keepCap 1024 c.surv.stackCap,
       namesCap := keepCap 64 c.surv.namesCap,
@@ -123,10 +125,13 @@ inductive Op where
   | string (s : Bytes)
   | pushObject | popObject | pushArray | popArray
   | value (v : GoVal)
+  | enterUser                 -- a user method/function starts: `Floor = len(Stack)` (arshal_methods.go:225, arshal_funcs.go:224)
+  | leaveUser (prev : Nat)    -- its deferred restore: `Floor = prevFloor`
 deriving Repr, Inhabited
 
 inductive Err where
   | sm (e : SMErr)
+  | enclosingEnd              -- errEnclosingEnd: popping a container the current user call did not open
   | duplicateName
   | cycle | user | panic
 deriving DecidableEq, Repr, Inhabited
@@ -154,6 +159,12 @@ def growSurv (c : Coder) : Coder :=
       namesCap := max c.surv.namesCap c.names.length,
       nssCap := max c.surv.nssCap c.namespaces.length,
       bufCap := max c.surv.bufCap c.offsets.2 } }
+
+/-- state.go popObject: after `!isObject`, `len(m.Stack) <= m.Floor` rejects with errEnclosingEnd. -/
+def blockedObj (m : Machine) (floor : Nat) : Bool := m.last.isObject && decide (m.stack.length ≤ floor)
+/-- state.go popArray: after `!isArray || len(m.Stack) == 0`, the floor test. -/
+def blockedArr (m : Machine) (floor : Nat) : Bool :=
+  m.last.isArray && m.stack.length != 0 && decide (m.stack.length ≤ floor)
 
 /-- One operation.  A rejected operation leaves the core state unchanged. -/
 def step (P : Params) (c : Coder) : Op → Coder × Res
@@ -193,6 +204,8 @@ def step (P : Params) (c : Coder) : Op → Coder × Res
                          namespaces := if c.allowDup then c.namespaces else c.namespaces ++ [[]] }
       let r := done c1 m 1 none; (growSurv r.1, r.2)
   | .popObject =>
+    -- state.go popObject: `!isObject` first, then the floor, then the remaining checks
+    if blockedObj c.machine c.floor then (c, .err .enclosingEnd) else
     match c.machine.popObject with
     | .error e => (c, .err (.sm e))
     | .ok m =>
@@ -204,9 +217,12 @@ def step (P : Params) (c : Coder) : Op → Coder × Res
     | .error e => (c, .err (.sm e))
     | .ok m => let r := done c m 1 none; (growSurv r.1, r.2)
   | .popArray =>
+    if blockedArr c.machine c.floor then (c, .err .enclosingEnd) else
     match c.machine.popArray with
     | .error e => (c, .err (.sm e))
     | .ok m => let r := done c m 1 none; (growSurv r.1, r.2)
+  | .enterUser => ({ c with floor := c.machine.stack.length }, .ok c.machine.depth c.machine.last.length (c.offsets.1 + c.offsets.2) none)
+  | .leaveUser prev => ({ c with floor := prev }, .ok c.machine.depth c.machine.last.length (c.offsets.1 + c.offsets.2) none)
   | .value v =>
     match c.machine.appendLiteral with      -- a value is accepted where a literal is
     | .error e => (c, .err (.sm e))
@@ -233,8 +249,9 @@ structure Core where
   namespaces : List (List Bytes)
   offsets : Nat × Nat
   flags : Flags
+  floor : Nat
 
-def Coder.core (c : Coder) : Core := ⟨c.machine, c.names, c.namespaces, c.offsets, c.flags⟩
+def Coder.core (c : Coder) : Core := ⟨c.machine, c.names, c.namespaces, c.offsets, c.flags, c.floor⟩
 
 /-! ### Survivor-free specification: the same operations on the core alone -/
 
@@ -277,6 +294,7 @@ def stepC (P : Params) (k : Core) : Op → Core × Res
       doneC { k with names := k.names ++ [[]],
                      namespaces := if allowDupK k then k.namespaces else k.namespaces ++ [[]] } m 1 none
   | .popObject =>
+    if blockedObj k.machine k.floor then (k, .err .enclosingEnd) else
     match k.machine.popObject with
     | .error e => (k, .err (.sm e))
     | .ok m =>
@@ -287,9 +305,12 @@ def stepC (P : Params) (k : Core) : Op → Core × Res
     | .error e => (k, .err (.sm e))
     | .ok m => doneC k m 1 none
   | .popArray =>
+    if blockedArr k.machine k.floor then (k, .err .enclosingEnd) else
     match k.machine.popArray with
     | .error e => (k, .err (.sm e))
     | .ok m => doneC k m 1 none
+  | .enterUser => ({ k with floor := k.machine.stack.length }, .ok k.machine.depth k.machine.last.length (k.offsets.1 + k.offsets.2) none)
+  | .leaveUser prev => ({ k with floor := prev }, .ok k.machine.depth k.machine.last.length (k.offsets.1 + k.offsets.2) none)
   | .value v =>
     match k.machine.appendLiteral with
     | .error e => (k, .err (.sm e))
